@@ -5,7 +5,9 @@
 set -u
 M="$1"; SID="$2"; PROP="$3"
 WT=/tmp/wtv_$SID
-export CARGO_TARGET_DIR=/tmp/verif_target CARGO_NET_OFFLINE=true
+export CARGO_TARGET_DIR=${CONFIRM_TARGET_DIR:-/tmp/verif_target} CARGO_NET_OFFLINE=true
+# the suite writes fixed file names into the temp dir: one private temp dir per confirmation
+export TMPDIR=$(mktemp -d /tmp/confirm_tmp_XXXXXX)
 git -C /repo worktree remove --force $WT 2>/dev/null
 git -C /repo worktree add -q --detach $WT HEAD || exit 2
 cd $WT
@@ -44,4 +46,4 @@ P
 else
   echo "  NOT KEPT"
 fi
-cd /; git -C /repo worktree remove --force $WT
+cd /; git -C /repo worktree remove --force $WT; rm -rf "$TMPDIR"
